@@ -451,7 +451,8 @@ def snap_manifest(dv) -> dict:
             "period_errors": [_own_errors(p) for p in m.periods],
             "period_ids": [p.id for p in m.periods], "n_periods": len(m.periods),
             "has_mpd_duration": m.mediaPresentationDuration is not None,
-            "n_patches": len(m.patches), "lines": list(dv.manifest_text)}
+            "n_patches": len(m.patches), "lines": list(dv.manifest_text),
+            "tree_errors": [_err(e) for e in m.get_errors()]}
 
 
 @dataclasses.dataclass
